@@ -39,6 +39,15 @@ Theorem C26_nilnil_only_from_body_panic : forall h sh b,
 Proof. exact nilnil_only_from_body_panic. Qed.
 Print Assumptions C26_nilnil_only_from_body_panic.
 
+(* A treasure key the storage format cannot hold (longer than its 16-bit key length) is rejected with
+   InvalidArgument by every handler that can create a treasure, before any swamp is touched - it is
+   never acknowledged and then dropped by the writer. *)
+Theorem C26_oversized_key_rejected : forall h sh,
+  In h [HSet; HInc; HPush] -> sh_name sh = NOk -> sh_kvnil sh = false -> sh_by0 sh = false ->
+  sh_wkey_long sh = true -> validate vcfg_now h sh = Reject EInvalid false.
+Proof. exact long_key_rejected. Qed.
+Print Assumptions C26_oversized_key_rejected.
+
 (* The pinned commit: every name-loading handler panicked on a swamp name with fewer than three
    parts, Get on an empty key list; the answer was (nil, nil). Kept as the reason for the fix: commits. *)
 Theorem C26_well_defined_response_refuted_at_pinned_commit :
